@@ -1,7 +1,7 @@
 (* Command interpreter shared by the extracted binary and by in-Coq evaluation:
    one s-expression command per line in, one s-expression answer out. *)
 From Coq Require Import String Ascii List ZArith NArith Bool.
-From OL Require Import Sexp PyAst Unparse Config Namespace Lower Cli.
+From OL Require Import Sexp PyAst Unparse Config Namespace Lower Cli StrLit.
 Import ListNotations.
 Open Scope string_scope.
 
@@ -35,6 +35,16 @@ Definition run_cmd (x : sexp) : sexp :=
       | Some cs', Some unp', Some out' =>
           let r := cli cs' unp' out' in ok (L [sx_verdict (fst r); L (map sx_effect (snd r))])
       | _, _, _ => bad "decode-cli"
+      end
+  | L [A "decode"; q; t] =>
+      match n_of q, cps_of t with
+      | Some q', Some t' => match decode q' t' with Some r => ok (sx_cps r) | None => L [A "none"] end
+      | _, _ => bad "decode-args"
+      end
+  | L [A "fdecode"; q; t] =>
+      match n_of q, cps_of t with
+      | Some q', Some t' => match fdecode q' t' with Some r => ok (sx_cps r) | None => L [A "none"] end
+      | _, _ => bad "decode-args"
       end
   | L [A "cfg-hist"; L acts] =>
       match mapM action_of acts with
